@@ -12,7 +12,7 @@ BUDGET = {"quick": 1200, "thorough": 150000}
 RULE = ("scenario = scheduler with 1-5 jobs of all types/limits, n_threads in {0,1,3}, default or user logger (whose handler is attached before or, in 30%, only after the scheduler is constructed), fault pattern per "
         "poll (always / first only / alternating / random subset; any position in the batch) with exception classes Exception, "
         "ValueError, a user subclass, SchedulerError, StopIteration, queue.Empty, KeyError, and instances that are falsy (__bool__ False, "
-        "__len__ 0) or whose str()/repr() raise; each scenario is run twice on the real "
+        "__len__ 0) or whose str()/repr() raise; 15% of the jobs carry an argument whose repr()/str() raise (the job cannot be rendered, only run); each scenario is run twice on the real "
         "code - with its fault pattern and with no faults - and the two runs must agree on everything except failed_attempts and "
         "the log count (non-interference); Spec: no exception out of exec_jobs, failed = number of raising invocations <= attempts, "
         "exactly one error record per failure on the scheduler's logger; non-trivial = at least one raising invocation in a batch "
@@ -34,6 +34,9 @@ def scenarios(rng, n, tier):
         pattern = rng.choice(["always", "first", "alternate", "random"])
         culprits = sorted(rng.sample(range(nj), rng.randint(1, nj)))
         scn["exc"] = {str(k): rng.choice(EXC) for k in culprits}
+        for o in scn["ops"]:
+            if o["op"] == "sch" and rng.random() < 0.15:
+                o["badrepr"] = True      # an argument whose repr()/str() raise: the job cannot be rendered, only run
         logmode = rng.choice(["debug", "debug", "error", "critical", "disabled", "toggle"])
         scn["logmode"] = logmode
         i = 0
@@ -144,6 +147,14 @@ def nontrivial(r):
 from .. import aiomix  # noqa: E402
 from . import c17 as _c17  # noqa: E402
 
-aiomix.install(globals(), 0.25, lambda rng: aiomix.stream(rng, _c17.scenarios, tweak=lambda rng_, s: dict(s, _no_solo=True, late_handler=rng_.random() < 0.3)), aiomix.c10_specs,
+def _aio_tweak(rng_, s):
+    s = dict(s, _no_solo=True, late_handler=rng_.random() < 0.3)
+    for o in s["ops"]:
+        if o["op"] == "sch" and rng_.random() < 0.15:
+            o["badrepr"] = True
+    return s
+
+
+aiomix.install(globals(), 0.25, lambda rng: aiomix.stream(rng, _c17.scenarios, tweak=_aio_tweak), aiomix.c10_specs,
                aio_runner=aiomix.c10_runner,
                note="C17-style job lives with raising runs (20%), each also run fault-free; Spec: no supervising task dies, failed_attempts = raising runs, attempts = completed runs, one ERROR record per failure, the two runs agree on everything else")
